@@ -124,6 +124,22 @@ func genTScript(rt *rapid.T, maxSteps int, hostile bool) *TScript {
 	}
 	n := rapid.IntRange(3, maxSteps).Draw(rt, "nsteps")
 	for i := 0; i < n; i++ {
+		if rapid.IntRange(0, 9).Draw(rt, "permFrag") == 0 {
+			// an inbound connection half-way through the permission's life, another one just after
+			// the permission has run out (nothing refreshed it): only the first is announced
+			c := rapid.IntRange(0, nc-1).Draw(rt, "pfc")
+			p := rapid.IntRange(0, 1).Draw(rt, "pfp")
+			T := sc.Cfg.PermTimeoutS
+			if T == 0 {
+				T = 300
+			}
+			part := rapid.IntRange(1, T-1).Draw(rt, "pfPart")
+			sc.Steps = append(sc.Steps, TStep{Op: "CreatePermission", C: c, P: p, Life: -1}, TStep{Op: "Sleep", N: part, Life: -1},
+				TStep{Op: "PeerConnect", C: c, P: p, Life: -1}, TStep{Op: "Sleep", N: T - part + rapid.SampledFrom([]int{1, 1, 2}).Draw(rt, "pfOver"), Life: -1},
+				TStep{Op: "PeerConnect", C: c, P: p, Life: -1})
+
+			continue
+		}
 		if rapid.IntRange(0, 6).Draw(rt, "frag") == 0 {
 			c := rapid.IntRange(0, nc-1).Draw(rt, "fc")
 			p := rapid.IntRange(0, 1).Draw(rt, "fp")
